@@ -92,7 +92,9 @@ Print Assumptions c09_exact_handover.
    = every oracle price path); EClose id = a user closes, or anything else removes, another
    position; ECreate id = a user opens a position (appended: larger id).  State = (id list,
    stored offset); single offset, counter = list length (theorem [c09_block_is_sweep] ties the
-   block to the keepers' sweep_one of V1 (one app) and V2 LiquidateVaults).
+   block to the keepers' sweep_one of V1 (one app) and V2 LiquidateVaults; theorem
+   [c09_v2_hook_vault_block] ties it to the whole liquidationsV2 hook, whose borrow sweep keeps its
+   own offset since fix C09-F2).
 
    BOUND (named honestly): this is NOT the property's "two full sweeps" = 2*ceil(n/batch) blocks,
    which is refuted below.  What is proved is
@@ -122,10 +124,24 @@ Print Assumptions c09_live_interleaved.
 (* the block of the schedule is the keepers' sweep with counter = capacity = length *)
 Theorem c09_block_is_sweep : forall g ids off b u, (g = GV1 \/ g = GV2) -> zlen ids < two63 ->
   exists r, sweep_one g 0 (map (lpos u) ids) (zlen ids) (zlen ids) off b = Ok r /\
-            block_ids ids off b u = (r_seized r, map p_id (r_list r), r_off r) /\
-            r_aborted r = false.
+            block_ids ids off b u = (r_seized r, map p_id (r_list r), r_off r).
 Proof. exact block_is_sweep_one. Qed.
 Print Assumptions c09_block_is_sweep.
+
+(* liquidationsV2.Liquidate = vault sweep (offset key 0), then borrow sweep (offset key 1): the
+   vault half of the hook is the block of the schedule WHATEVER the borrow list, the borrows'
+   verdicts (errors and panics included) and the borrow offset are - so c09_live_quiet /
+   c09_live_interleaved hold for the deployed V2 hook without a further hypothesis.
+   (Before fix C09-F2 the borrow sweep stored its offset under key 0 and this was refuted:
+   regression Example c09_v2_starved_served below.) *)
+Theorem c09_v2_hook_vault_block : forall ids off0 b u bl off1, zlen ids < two63 -> zlen bl < two63 ->
+  exists sb st', sweep_v2 (fun n => n) b (mkV2 (map (lpos u) ids) (zlen ids) off0 bl off1) =
+                   Ok (fst (fst (block_ids ids off0 b u)), sb, st') /\
+    map p_id (t_list st') = snd (fst (block_ids ids off0 b u)) /\
+    t_off0 st' = snd (block_ids ids off0 b u) /\
+    map p_id (t_borrows st') = map p_id bl /\ t_off1 st' = snd (sweep_window (zlen bl) off1 b).
+Proof. exact v2_hook_vault_block. Qed.
+Print Assumptions c09_v2_hook_vault_block.
 
 (* non-vacuity: a concrete interleaved schedule meeting every hypothesis, long enough for the bound *)
 Example c09_live_nonvacuous :
@@ -165,20 +181,91 @@ Theorem c09_two_sweeps_falling_refuted :
 Proof. exact two_sweeps_refuted_falling. Qed.
 Print Assumptions c09_two_sweeps_falling_refuted.
 
-(* ---- refuted: liveness of liquidationsV2 as deployed ---- *)
-(* the V2 hook = vault sweep, then borrow sweep that stores ITS offset under the vault sweep's key:
-   2 vaults, batch 1, the second unsafe, all hypotheses met, no borrows: the state is a fixed
-   point of the hook, so the unsafe vault is never seized, whatever the number of blocks *)
-Theorem c09_live_v2_refuted : forall k, run_v2 (fun n => n) 1 k v2_starved = Ok v2_starved.
-Proof. exact live_v2_refuted. Qed.
-Print Assumptions c09_live_v2_refuted.
+(* ---------------------------------------------------------------------------------------- *)
+(* liveness of the liquidationsV2 borrow sweep (every item inside ApplyFuncIfNoError since fix
+   C09-F3, own offset key since fix C09-F2).  The schedule ([bevent]): BBlock vf = one block in
+   which borrow id reaches the verdict vf id - ANY verdict for every other borrow in every block:
+   safe, unsafe, an error (kill switch, inactive price, missing lend position ...) or a panic;
+   BClose id = another borrow is repaid / deleted (leaves the list); BCreate id = a new borrow
+   (appended).  State = (ids, stored offset, ids liquidated so far): a liquidated borrow STAYS in
+   the list with IsLiquidated set, so seizures do not shift positions.  x is "seized" = x enters
+   the liquidated set. *)
 
-(* V2 borrows: the loop is not wrapped per item; an erroring borrow in front of an unsafe one
-   aborts the sweep before it in every block (the V1-style wrapped loop serves the same list) *)
-Theorem c09_live_borrow_refuted : forall k, run_v2 (fun n => n) 5 k v2_borrow_starved = Ok v2_borrow_starved.
-Proof. exact live_borrow_refuted. Qed.
-Print Assumptions c09_live_borrow_refuted.
+(* the block of the borrow schedule is the keepers' V2 borrow sweep (list sliced by its length) *)
+Theorem c09_borrow_block_is_sweep : forall ids liq off b vf, zlen ids < two63 ->
+  exists r, sweep_one GB2 0 (map (bpos vf liq) ids) (zlen ids) (zlen ids) off b = Ok r /\
+            bblock_ids ids liq off b vf = (r_seized r, r_off r) /\
+            r_list r = map (bpos vf (liq ++ r_seized r)) ids.
+Proof. exact bblock_is_sweep_one. Qed.
+Print Assumptions c09_borrow_block_is_sweep.
 
-Example c09_borrow_wrapped_would_serve :
-  exists r, sweep_one GB1 0 [mkPos 1 0 VErr; mkPos 2 0 VSeize] 2 2 0 5 = Ok r /\ r_seized r = [2].
-Proof. exact live_borrow_wrapped_ok. Qed.
+(* ... and the borrow half of the whole V2 hook, whatever the vault sweep seizes *)
+Theorem c09_v2_hook_borrow_block : forall capf vl counter off0 b r1 ids liq off1 vf, zlen ids < two63 ->
+  sweep_one GV2 0 vl (capf (zlen vl)) counter off0 b = Ok r1 ->
+  exists st', sweep_v2 capf b (mkV2 vl counter off0 (map (bpos vf liq) ids) off1) =
+                Ok (r_seized r1, fst (bblock_ids ids liq off1 b vf), st') /\
+    t_borrows st' = map (bpos vf (liq ++ fst (bblock_ids ids liq off1 b vf))) ids /\
+    t_off1 st' = snd (bblock_ids ids liq off1 b vf) /\
+    t_list st' = r_list r1 /\ t_off0 st' = r_off r1.
+Proof. exact v2_hook_borrow_block. Qed.
+Print Assumptions c09_v2_hook_borrow_block.
+
+(* quiet chain: a borrow that is above its threshold (verdict VSeize: liquidation enabled, prices
+   active, controls off) in every block is liquidated within (n-1)/batch + 2 blocks, whatever the
+   other borrows do in those blocks (erroring and panicking borrows in front of it included) ... *)
+Theorem c09_live_borrow_quiet : forall b x ids off liq vfs,
+  1 <= b -> 0 <= off -> In x ids ->
+  Forall (fun vf => vf x = VSeize) vfs ->
+  live_R (zlen ids) b <= zlen vfs ->
+  In x (bs_liq (fold_left (bev_step b) (bblocks_of vfs) (mkB ids off liq))).
+Proof. exact blive_quiet. Qed.
+Print Assumptions c09_live_borrow_quiet.
+
+(* ... which is within the property's literal "two full sweeps of the position list" *)
+Theorem c09_live_borrow_two_sweeps : forall b x ids off liq vfs,
+  1 <= b -> 0 <= off -> In x ids ->
+  Forall (fun vf => vf x = VSeize) vfs ->
+  two_sweeps (zlen ids) b <= zlen vfs ->
+  In x (bs_liq (fold_left (bev_step b) (bblocks_of vfs) (mkB ids off liq))).
+Proof. exact blive_quiet_two_sweeps. Qed.
+Print Assumptions c09_live_borrow_two_sweeps.
+
+(* interleaved with repayments / deletions of other borrows and with new borrows: the bound of
+   the vault theorem, live_bound (n + c) c b *)
+Theorem c09_live_borrow_interleaved : forall b x ids off liq evs c,
+  1 <= b -> 0 <= off -> NoDup ids -> In x ids ->
+  brun_ok b x (mkB ids off liq) evs -> n_bcreates evs <= c ->
+  live_bound (zlen ids + c) c b <= n_bblocks evs ->
+  In x (bs_liq (fold_left (bev_step b) evs (mkB ids off liq))).
+Proof. exact blive_interleaved. Qed.
+Print Assumptions c09_live_borrow_interleaved.
+
+(* non-vacuity: 5 borrows, batch 2, offset 4; borrow 3 is unsafe in every block while borrow 0
+   errors, borrow 1 panics and borrow 2 is safe; a repayment and a new borrow in between *)
+Example c09_live_borrow_nonvacuous :
+  let vf := fun id => if id =? 0 then VErr else if id =? 1 then VPanic else if id =? 3 then VSeize else VKeep in
+  let evs := [BBlock vf; BCreate 9; BClose 2; BBlock vf] ++ bblocks_of (repeat vf 24) in
+  brun_ok 2 3 (mkB [0;1;2;3;4] 4 []) evs /\ n_bcreates evs <= 1 /\
+  live_bound (zlen [0;1;2;3;4] + 1) 1 2 <= n_bblocks evs /\
+  bs_liq (fold_left (bev_step 2) evs (mkB [0;1;2;3;4] 4 [])) = [3] /\
+  (* quiet: seized in the 3rd block = live_R 5 2 - 1 <= two_sweeps 5 2 = 6 *)
+  bs_liq (fold_left (bev_step 2) (bblocks_of (repeat vf 2)) (mkB [0;1;2;3;4] 4 [])) = [] /\
+  bs_liq (fold_left (bev_step 2) (bblocks_of (repeat vf 3)) (mkB [0;1;2;3;4] 4 [])) = [3] /\
+  live_R 5 2 = 4 /\ two_sweeps 5 2 = 6.
+Proof. vm_compute. repeat split; intros; try discriminate; try (intuition discriminate). Qed.
+
+(* ---- regressions: the witnesses of the repaired findings now pass ---- *)
+(* C09-F2 (was c09_live_v2_refuted: "forall k, run_v2 k v2_starved = v2_starved"): 2 vaults,
+   batch 1, the second unsafe, no borrows: the vault offset advances, the second block seizes it *)
+Example c09_v2_starved_served :
+  run_v2 (fun n => n) 1 2 v2_starved = Ok (mkV2 [mkPos 1 0 VKeep] 1 2 [] 0).
+Proof. exact v2_starved_served. Qed.
+
+(* C09-F3 (was c09_live_borrow_refuted): an erroring - or panicking - borrow in front of an unsafe
+   one: the wrapped loop goes on and liquidates borrow 2 in the first block *)
+Example c09_borrow_starved_served :
+  sweep_v2 (fun n => n) 5 v2_borrow_starved =
+    Ok ([], [2], mkV2 [] 0 0 [mkPos 1 0 VErr; mkPos 2 0 VKeep] 2) /\
+  sweep_v2 (fun n => n) 5 (mkV2 [] 0 0 [mkPos 1 0 VPanic; mkPos 2 0 VSeize] 0) =
+    Ok ([], [2], mkV2 [] 0 0 [mkPos 1 0 VPanic; mkPos 2 0 VKeep] 2).
+Proof. exact v2_borrow_starved_served. Qed.
